@@ -21,7 +21,10 @@ build_coq() {
     cd $C/ocaml
     timeout 600 coqc -Q $V/coq/theories CB $V/coq/theories/Extract.v -o $C/ocaml/Extract.vo > $C/logs/extract.log 2>&1 || { cat $C/logs/extract.log; echo "EXTRACTION FAILED"; return 1; }
     cp $V/driver/main.ml $C/ocaml/main.ml
-    ocamlfind ocamlopt -O2 -w -a model.mli model.ml main.ml -o driver > $C/logs/ocaml.log 2>&1 || { cat $C/logs/ocaml.log; echo "OCAML BUILD FAILED"; return 1; }
+    ocamlfind ocamlopt -O2 -w -a model.mli model.ml main.ml -o driver.bin > $C/logs/ocaml.log 2>&1 || { cat $C/logs/ocaml.log; echo "OCAML BUILD FAILED"; return 1; }
+    # the extracted functions recurse on lists and unary numbers: run with an unlimited stack
+    printf '#!/bin/bash\nulimit -s unlimited 2>/dev/null || ulimit -s 4000000 2>/dev/null\nexec "$(dirname "$0")/driver.bin" "$@"\n' > driver
+    chmod +x driver
     echo "$cur" > $stamp
   fi
 }
